@@ -74,7 +74,9 @@ def _make_crs(
     crs_str_u = crs_str.upper()
     if crs_str_u.startswith("EPSG:"):
         crs_str = crs_str_u
-        epsg = int(crs_str.split(":", 1)[1])
+        code = crs_str.split(":", 1)[1]
+        if code.isdigit():  # compound forms, "EPSG:4326+5773", resolve lazily
+            epsg = int(code)
 
     return (crs, crs_str, epsg)
 
